@@ -16,6 +16,7 @@ import (
 	"os"
 	"path/filepath"
 	"sort"
+	"strings"
 
 	"golang.org/x/tools/go/ssa"
 )
@@ -23,6 +24,7 @@ import (
 type localHint struct {
 	Type string `json:"type"`
 	Ord  int    `json:"ord"`
+	Kind string `json:"kind"`
 }
 
 var localHints = map[string]map[string]localHint{}
@@ -62,7 +64,7 @@ func hintsOf(fn *ssa.Function) map[string]localHint {
 	for _, a := range namedAllocs(fn) {
 		ts := allocTypeString(a)
 		if _, dup := out[a.Comment]; !dup {
-			out[a.Comment] = localHint{Type: ts, Ord: cnt[ts]}
+			out[a.Comment] = localHint{Type: ts, Ord: cnt[ts], Kind: typeKindOf(ts, a)}
 		}
 		cnt[ts]++
 	}
@@ -110,4 +112,48 @@ func cmdLocals(args []string) int {
 	b, _ := json.MarshalIndent(out, "", " ")
 	os.Stdout.Write(append(b, '\n'))
 	return 0
+}
+
+// typeKindOf / hintKind: a coarse kind of a local's type ("struct", "ptr", "slice", "map", "iface", or the basic
+// type's name), used to re-bind a local that was renamed and re-typed at the same time.
+func typeKindOf(ts string, a *ssa.Alloc) string {
+	t := a.Type()
+	if p, ok := t.Underlying().(*types.Pointer); ok {
+		t = p.Elem()
+	}
+	switch u := types.Unalias(t).Underlying().(type) {
+	case *types.Struct:
+		return "struct"
+	case *types.Pointer:
+		return "ptr"
+	case *types.Slice:
+		return "slice"
+	case *types.Map:
+		return "map"
+	case *types.Interface:
+		return "iface"
+	case *types.Basic:
+		return u.Name()
+	}
+	return ts
+}
+
+func hintKind(h localHint) string {
+	if h.Kind != "" {
+		return h.Kind
+	}
+	ts := h.Type
+	switch {
+	case strings.HasPrefix(ts, "struct{"):
+		return "struct"
+	case strings.HasPrefix(ts, "*"):
+		return "ptr"
+	case strings.HasPrefix(ts, "[]"):
+		return "slice"
+	case strings.HasPrefix(ts, "map["):
+		return "map"
+	case strings.HasPrefix(ts, "interface"), ts == "error", ts == "any":
+		return "iface"
+	}
+	return ts
 }
